@@ -59,6 +59,7 @@ package miner
 //@   assert-at call ProcessBlock not-before-the-block-timestamp: lastresult("After") && arg1 == block
 //@   assert-at call After compares-now-with-the-header-timestamp: arg0 == lastresult("Now")
 //@   ensures accepted-height-recorded: result ==> has(m.minedHeight, lastresult("Height#4"))
+//@   assume-at call ProcessBlock chain-does-not-touch-the-miners-own-set: m.minedHeight == old(m.minedHeight) && (forall h int :: old(m.minedHeight != nil && has(m.minedHeight, h)) ==> has(m.minedHeight, h))
 //@   ensures no-mined-height-forgotten: forall h int :: old(m.minedHeight != nil && has(m.minedHeight, h)) ==> has(m.minedHeight, h)
 
 //@ func (*PoCMiner).solveBlock
